@@ -146,6 +146,7 @@ def map(
     to_process = []
     to_render = []
     to_scatter = []
+    operations = []
     for layer in layers:
         if not isinstance(layer, Layer):
             raise TypeError(f"Expected Layer object, got {type(layer)} instead. ")
@@ -165,6 +166,7 @@ def map(
             to_scatter.append({"data": layer.data, "params": layer.kwargs})
         else:
             to_process.append(layer.data)
+            operations.append(layer.operation)
             to_render.append(
                 {
                     "mode": layer.mode,
@@ -391,14 +393,24 @@ def map(
         ndim=ndim,
     )
 
-    # Apply operation along depth
-    binned = getattr(np, operation)(binned, axis=1)
+    # Apply each layer's own operation along depth (a layer-level operation takes
+    # precedence over the one passed to the call); vector layers occupy three rows
+    rows_per_layer = [1 if scalar else 3 for scalar in scalar_layer]
+    row_operations = [
+        op for op, nrows in zip(operations, rows_per_layer) for _ in range(nrows)
+    ]
+    binned = np.array(
+        [getattr(np, op)(binned[row], axis=0) for row, op in enumerate(row_operations)]
+    )
 
     # Handle thick maps
-    if thick and ((operation == "sum") or (operation == "nansum")):
-        binned *= zspacing
-        for layer in to_render:
-            layer["unit"] = layer["unit"] * dataz.unit
+    if thick:
+        row = 0
+        for layer, op, nrows in zip(to_render, operations, rows_per_layer):
+            if (op == "sum") or (op == "nansum"):
+                binned[row : row + nrows] *= zspacing
+                layer["unit"] = layer["unit"] * dataz.unit
+            row += nrows
 
     # Mask NaN values
     mask = np.isnan(binned[-1, ...])
